@@ -25,8 +25,8 @@ QUERY = {"atlas": "ds.Select(lambda e: e.EventInfo('EventInfo').runNumber())",
 BUILD_TOOLS = {"atlas": ["cmake", "make"], "cms_aod": ["mkedanlzr", "scram"], "cms_miniaod": ["mkedanlzr", "scram"]}
 JOB_TOOL = {"atlas": "python", "cms_aod": "cmsRun", "cms_miniaod": "cmsRun"}
 STEPS = {"atlas": ["release_setup", "cmake", "make", "externals_setup", "python", "python+late", "sudo"] + [f"cp@{k}" for k in range(1, 7)],
-         "cms_aod": ["cms_entrypoint", "mkedanlzr", "scram", "cmsRun", "cmsRun+late", "root"] + [f"cp@{k}" for k in range(1, 5)],
-         "cms_miniaod": ["cms_entrypoint", "mkedanlzr", "scram", "cmsRun", "cmsRun+late", "root"] + [f"cp@{k}" for k in range(1, 5)]}
+         "cms_aod": ["cms_entrypoint", "mkedanlzr", "scram", "cmsRun", "cmsRun+late", "root", "root+late"] + [f"cp@{k}" for k in range(1, 5)],
+         "cms_miniaod": ["cms_entrypoint", "mkedanlzr", "scram", "cmsRun", "cmsRun+late", "root", "root+late"] + [f"cp@{k}" for k in range(1, 5)]}
 DEFAULT_LIST = "/data/default1.root\n/data/default2.root\n"
 
 
